@@ -28,8 +28,9 @@ PROP = dict(
         "known finding F17: a zero syllable at a non-first child position panics entries() (entries_no_panic_refuted)",
         "known finding F39 (dictionary-file form): an entry under the empty key makes every conversion abort (oracle only: the "
         "conversion engine is not part of this model)",
-        "known finding F40: a stored phrase frequency within reach of u32::MAX aborts the first commit that learns the phrase "
-        "(add with overflow in estimate.rs, overflow-check profile); witness at the level of C08's estimate model",
+        "F40 (a stored phrase frequency within reach of u32::MAX aborted the first commit that learns the phrase: add with overflow in "
+        "estimate.rs) is repaired in the repository (saturating_add); stored_freq_never_overflows is stated over C08's estimate model, which "
+        "the translator ties to the saturating form; the witness file stays in the harness and has no oracle class any more",
         "swkb.dat / symbols.dat loaders and the SQLite user dictionary are not covered",
     ],
 )
